@@ -188,6 +188,13 @@ structure View where
   win : List Win
 deriving DecidableEq, Repr, Inhabited
 
+/-- how the handler's dataset holds the elements of a String array: numpy dtype `U` (the elements are `str`) or
+    dtype `S` (the elements are `bytes`: what files and pydap's own parsers deliver).  `lib.encode` and
+    `responses/dods.py` `_basetype` dispatch on it. -/
+inductive StrRep where
+  | str | bytes
+deriving DecidableEq, Repr, Inhabited
+
 structure Base where
   name : Str
   ty : Str            -- DAP2 type name as printed
@@ -199,6 +206,8 @@ structure Base where
       `some v`: the `Arrayterator` an earlier hyperslab of the same request left in `var.data`
       (`shape` / `data` above are then what it announces / yields) -/
   view : Option View := none
+  /-- the Python type of the elements when `ty` is `String` (immaterial for numbers) -/
+  srep : StrRep := .str
 deriving DecidableEq, Repr, Inhabited
 
 /-- a member of a top-level Structure: an array, or a Structure of arrays -/
@@ -731,14 +740,41 @@ def ndindex : List Nat → List (List Nat)
 
 def idxText (ix : List Nat) : Str := ix.flatMap fun i => ['['] ++ natText i ++ [']']
 
-/-- `encode(value)`: numbers through the formatter, strings between double quotes -/
+/-- `encode(value)` of a value that is a number or a `str` (sequence cells arrive decoded by `iterdata`): numbers
+    through the formatter, strings between double quotes -/
 def fmtVal (fmt : Int → Str) : Val → Str
   | .int i => fmt i
   | .str s => ['"'] ++ s ++ ['"']
 
+def hexDigit (n : Nat) : Char := if n < 10 then Char.ofNat (48 + n) else Char.ofNat (87 + n)
+
+/-- `bytes.decode("ascii", "backslashreplace")`: ASCII bytes are themselves, any other byte is `\xhh` -/
+def decodeAscii (s : Str) : Str :=
+  s.flatMap fun c => if c.toNat < 128 then [c] else ['\\', 'x', hexDigit (c.toNat / 16 % 16), hexDigit (c.toNat % 16)]
+
+/-- `lib.encode(obj)` on an element (or the 0-d data) of an array, by the representation of the array:
+    `bytes` (dtype `S`; a 0-d array is first turned into its item) is decoded and then treated as `str`;
+    `str` (dtype `U`) is put between double quotes; a number goes through `'%.6g'` -/
+def encode (fmt : Int → Str) (rep : StrRep) : Val → Str
+  | .int i => fmt i
+  | .str s =>
+    match rep with
+    | .str => ['"'] ++ s ++ ['"']
+    | .bytes => ['"'] ++ decodeAscii s ++ ['"']
+
+/-- `encode` before the repair 3c6bfd0: a `bytes` element is neither `str` nor an array, `'%.6g' % obj` raises, and the
+    fallback formats the object — the text of its Python literal (spelled out for bytes without quote, backslash or
+    control characters) -/
+def encodePinned (fmt : Int → Str) (rep : StrRep) : Val → Str
+  | .int i => fmt i
+  | .str s =>
+    match rep with
+    | .str => ['"'] ++ s ++ ['"']
+    | .bytes => ['"'] ++ (['b', '\''] ++ s ++ ['\'']) ++ ['"']
+
 /-- the lines `"{indexes} {value}\n"` for `zip(np.ndindex(shape), data.flat)` -/
-def asciiLines (fmt : Int → Str) (shape : List Nat) (data : List Val) : Str :=
-  (List.zip (ndindex shape) data).flatMap fun (ix, v) => idxText ix ++ [' '] ++ fmtVal fmt v ++ ['\n']
+def asciiLines (fmt : Int → Str) (rep : StrRep) (shape : List Nat) (data : List Val) : Str :=
+  (List.zip (ndindex shape) data).flatMap fun (ix, v) => idxText ix ++ [' '] ++ encode fmt rep v ++ ['\n']
 
 /-- `ascii` of a `BaseType` (printname = True), with the id already resolved.  This is where
     `var.data.flat` is used: a wrapped `BaseType` has no `.flat`. -/
@@ -746,12 +782,12 @@ def asciiBase (fmt : Int → Str) (id : Str) (b : Base) : Except Exc Str :=
   match b.shape with
   | [] =>
     match b.data with
-    | [v] => .ok (id ++ ['\n'] ++ fmtVal fmt v)
+    | [v] => .ok (id ++ ['\n'] ++ encode fmt b.srep v)
     | _ => .error .unspecified
   | sh =>
     match b.kind with
     | .wrapped => .error .attributeError
-    | .arr => .ok (id ++ ['\n'] ++ asciiLines fmt sh b.data)
+    | .arr => .ok (id ++ ['\n'] ++ asciiLines fmt b.srep sh b.data)
 
 def joinWith (sep : Str) : List Str → Str
   | [] => []
@@ -850,6 +886,26 @@ def xVal (t : Xdr.Ty) : Val → Xdr.Val
     | .string => .str (strBytes s)
     | _ => .num 0
 
+/-- the bytes `_basetype` yields for one word of a String array, by the Python type of the word:
+    `word.encode("ascii")` for a `str`, `bytes(word)` for a `bytes` (`numpy.bytes_`) -/
+def wordBytes (rep : StrRep) (s : Str) : Xdr.Bytes :=
+  match rep with
+  | .str => strBytes s
+  | .bytes => strBytes s
+
+/-- `_basetype` before the repair 4256c07: a `numpy.bytes_` has no `.encode`, `word.tobytes()` was used — one NUL
+    for the empty string -/
+def wordBytesPinned (rep : StrRep) (s : Str) : Xdr.Bytes :=
+  match rep with
+  | .str => strBytes s
+  | .bytes => if s = [] then [0] else strBytes s
+
+/-- `xVal` with the word dispatch of `_basetype` -/
+def xValR (rep : StrRep) (t : Xdr.Ty) (v : Val) : Xdr.Val :=
+  match v, t with
+  | .str s, .string => .str (wordBytes rep s)
+  | v, t => xVal t v
+
 def tmplOfBase (b : Base) : Xdr.Tmpl := .base (tyOf b.ty) b.shape
 
 /-- `var.data` as `_basetype` sees it: 0-d data (`shape = []`, one value) or an array -/
@@ -857,9 +913,9 @@ def dataOfBase (b : Base) : Xdr.Data :=
   match b.shape with
   | [] =>
     match b.data with
-    | [v] => .scalar (xVal (tyOf b.ty) v)
+    | [v] => .scalar (xValR b.srep (tyOf b.ty) v)
     | _ => .tuple []                          -- not a 0-d array: no such object (`Base.WF` excludes it)
-  | _ => .array (b.data.map (xVal (tyOf b.ty)))
+  | _ => .array (b.data.map (xValR b.srep (tyOf b.ty)))
 
 def tmplOfMember : Member → Xdr.Tmpl
   | .base b => tmplOfBase b
